@@ -97,7 +97,8 @@ def grid_case(draw):
 
 
 item = st.integers(-3, 3) | st.sampled_from(["a", "b", "", "cd"])
-comb_case = st.lists(st.lists(item, max_size=4), max_size=4).map(lambda x: {"kind": "comb", "items": x})
+comb_case = st.tuples(st.lists(st.lists(item, max_size=4), max_size=4), st.booleans()).map(
+    lambda x: {"kind": "comb", "items": x[0], "partial": x[1]})
 
 
 def strategies(tier):
@@ -183,6 +184,21 @@ def check_table(case, v):
                 e = _rec_eq(t[mk], fields, mv)
                 if e:
                     return v.fail("table-key", f"step {step}: t[{mk!r}]: {e}")
+                try:
+                    e = _rec_eq(getattr(t, mk), fields, mv)
+                except Exception as ex:
+                    return v.fail("table-get_attr", f"step {step}: t.{mk} raised {ex!r}")
+                if e:
+                    return v.fail("table-get_attr", f"step {step}: t.{mk}: {e}")
+            for k in KEYS:
+                # a key that is not (or no longer) in the table is not reachable as an attribute either
+                if k not in model:
+                    try:
+                        rec = getattr(t, k)
+                    except Exception:
+                        continue
+                    return v.fail("table-get_attr", f"step {step}: t.{k} returns {rec!r} although {k!r} is not a key "
+                                                    f"(keys: {list(model)})")
         else:
             items = list(t.items())
             if [k for k, _ in items] != list(range(len(model))):
@@ -280,6 +296,9 @@ def check_rows(case, v):
     names, types, array = case["names"], case["types"], case["array"]
     dt = {"i": dict(dtype=np.int64), "f": dict(dtype=float), "s": dict(dtype="U16")}
     if case["lazy"]:
+        # another default-constructed collector, fed other column names, lived in this process before
+        earlier = RowCollector()
+        earlier.append({"zz0": 1, "zz1": 2.5})
         rc = RowCollector()
     elif array:
         rc = RowCollector({n: dt[t] for n, t in zip(names, types)}, rows=case["init"] or None, array=True)
@@ -307,7 +326,11 @@ def check_rows(case, v):
             model.append(list(op[1]))
         elif op[0] == "append_dict":
             order = op[2]
-            rc.append({names[j]: op[1][j] for j in order})
+            try:
+                rc.append({names[j]: op[1][j] for j in order})
+            except Exception as ex:
+                return v.fail("rows-raised", f"step {step}: append({ {names[j]: op[1][j] for j in order}!r}) raised {ex!r} "
+                                             f"(columns {names}, lazy={case['lazy']})")
             model.append(list(op[1]))
             v.label("dict_row")
         elif op[0] == "sort":
@@ -392,6 +415,20 @@ def check_comb(case, v):
         exp_k = [k + (i,) for k in exp_k for i in range(len(lst))]
         exp_v = [p + (x,) for p in exp_v for x in lst]
     dc = DataCombination(items)
+    if case.get("partial") and exp_v:
+        # an enumeration that is abandoned, and two that run interleaved, must not change what later ones deliver
+        try:
+            it1 = iter(dc.items())
+            next(it1)
+            a, b = iter(dc.values()), iter(dc.keys())
+            next(a)
+            next(b)
+            if len(exp_v) > 1:
+                next(a)
+        except StopIteration:
+            return v.fail("comb-values", f"an enumeration of {items!r} ended early while another one was abandoned / running "
+                                         f"(expected {len(exp_v)} combinations)")
+        v.label("comb_after_partial_iteration")
     got_v = list(dc.values())
     got_k = list(dc.keys())
     got_i = list(dc.items())
